@@ -12,10 +12,17 @@ def run_prop(ctx, prop, rule, min_cells=None, require=None):
     a2, v2, s2 = client.sweep(ctx, dbg, prop, 6000000 if q else 120000000, 1)
     ctx.log("debug (overflow-checked) sweep: %d evaluations" % a2["evaluations"])
     cdrv = client.build_cdriver(ctx, sanitize=True)
-    n3, v3, info = client.c_parity(ctx, rel, cdrv, prop, 300000 if q else 3000000, [prop])
+    blur = (a1["blur_ns"] or [1000])[0]
+    n3, v3, info = client.c_parity(ctx, rel, cdrv, prop, 300000 if q else 3000000, [prop], blur)
     ctx.log("C library parity + python oracle: %d vectors %s" % (n3, info))
     viol = v1 + v2 + v3
     inconclusive = None
+    blurs = sorted(set(a1["blur_ns"] + a2["blur_ns"]))
+    if prop == "C14":
+        if len(blurs) != 1:
+            viol.append({"sig": "blur-not-consistent", "detail": "the causality blur measured on the implementation differs between runs/builds: %s ns" % blurs, "replay": ""})
+        elif blurs[0] > 10_000_000:
+            viol.append({"sig": "blur-larger-than-clock-granularity", "detail": "the tolerated blur measured on the implementation is %d ns; a clock-granularity tolerance cannot exceed a scheduler tick (10 ms)" % blurs[0], "replay": ""})
     if a1["shards_lost"] or a2["shards_lost"]:
         # a shard that died is a crash of the code under test or of the harness: look at it
         inconclusive = "%d sweep shards did not finish" % (a1["shards_lost"] + a2["shards_lost"])
@@ -40,6 +47,7 @@ def run_prop(ctx, prop, rule, min_cells=None, require=None):
         "outcomes_release": a1["outcomes"],
         "outcomes_debug": a2["outcomes"],
         "chain_checks": a1["chain_checks"] + a2["chain_checks"],
+        "causality_blur_measured_ns": blurs,
         "c_library": dict(info, vectors=n3, sanitizers="clang ASan+UBSan, -fno-sanitize-recover=all, canaries around result structs"),
     }
     finish(ctx, coverage, viol, inconclusive, assumptions=[
